@@ -18,6 +18,14 @@ Proof. exact (decode_complete true BCodec_lenient_colon). Qed.
 
 (* the strict decoder is exactly the grammar (this is the oracle the
    correspondence check applies to the implementation's answers) *)
+(* "returning those values" is well defined: the grammar is unambiguous, a byte string is a sequence
+   of well-formed values in at most one way *)
+Theorem C16_grammar_unambiguous : forall doc vs1 vs2, WfSeq doc vs1 -> WfSeq doc vs2 -> vs1 = vs2.
+Proof.
+  intros doc vs1 vs2 H1 H2. apply C16_complete in H1. apply C16_complete in H2.
+  rewrite H1 in H2. injection H2 as ->. reflexivity.
+Qed.
+
 Theorem C16_strict_iff : forall doc vs, decode_strict doc = Ok vs <-> WfSeq doc vs.
 Proof. exact decode_strict_iff. Qed.
 
@@ -62,3 +70,4 @@ Print Assumptions C16_refuted_unterminated.
 Theorem C16_every_depth_accepted : forall n, decode (nested_text n) = Ok [nested n].
 Proof. exact nested_accepted. Qed.
 Print Assumptions C16_every_depth_accepted.
+Print Assumptions C16_grammar_unambiguous.
